@@ -27,6 +27,15 @@ Theorem kdouble_terminates N k conn :
              Z.min k (N - 1) <= k' <= N - 1.
 Proof. intros HN Hk Hc. apply kdouble_fuel; try assumption. lia. Qed.
 
+(* the list length find_neighbors ends with satisfies what inputs_wf asks of it *)
+Corollary kdouble_bounds N k conn :
+  3 <= k < N -> conn (N - 1) = true ->
+  exists keff, kdouble (Z.to_nat N) N k conn = Some keff /\ conn keff = true /\ k <= keff /\ keff < N.
+Proof.
+  intros Hk Hc. destruct (kdouble_terminates N k conn ltac:(lia) ltac:(lia) Hc) as (k' & R & C & B).
+  exists k'. repeat split; try assumption; lia.
+Qed.
+
 (* without that guarantee (e.g. neighbour lists that are too short) it never ends *)
 Theorem kdouble_refuted N k :
   forall fuel, kdouble fuel N k (fun _ => false) = None.
